@@ -1981,8 +1981,37 @@ func (n *npCtx) errGuardedResult(a string, x *ssa.Extract, call *ssa.Call) {
 	first := true
 	fx := c.newFacts(cal)
 	for _, ret := range returnsOf(cal) {
-		if !isConstNil(c.resolve(ret.Results[1])) {
-			continue
+		if e := c.resolve(ret.Results[1]); !isConstNil(e) {
+			// a return is out of the picture only when its error cannot be nil; an error value that may be nil at
+			// run time (`return n, err` after a call) can reach the guarded use just as well
+			nonNil := false
+			switch y := e.(type) {
+			case *ssa.MakeInterface:
+				nonNil = true // an interface holding a typed value
+			case *ssa.Call:
+				name := c.calleeName(y.Common())
+				nonNil = name == "fmt.Errorf" || name == "errors.New" || c.neverNilError(y.Common().StaticCallee(), 0)
+			}
+			if !nonNil {
+				// … or the return stands under a test that found this very value non-nil (`if err != nil { return 0, err }`)
+				for _, f := range c.domFacts(ret.Block()) {
+					if f.Alts != nil {
+						continue
+					}
+					if bo, isB := c.resolve(f.Cond).(*ssa.BinOp); isB && (isConstNil(bo.X) || isConstNil(bo.Y)) {
+						other := bo.X
+						if isConstNil(bo.X) {
+							other = bo.Y
+						}
+						if c.resolve(other) == e && ((bo.Op == token.NEQ && f.Pos) || (bo.Op == token.EQL && !f.Pos)) {
+							nonNil = true
+						}
+					}
+				}
+			}
+			if nonNil {
+				continue
+			}
 		}
 		m, _ := c.npAt(ret, fx)
 		m.depth = n.depth + 1
